@@ -242,10 +242,15 @@ def Broker.removeMember (b : Broker) (k : SessKey) (subId : Nat) (pub0 : Nat) :
   | none => (b, [], 0)
   | some sub =>
     let members := sub.members.filter (· != k)
+    -- the departure of a member is announced like an UNSUBSCRIBE (on_unsubscribe, then
+    -- on_delete when the subscription goes with it)
     if members.isEmpty && !b.hasHist sub.id then
       let b := b.delSub sub.id
-      (b, b.metaEvent MetaEventSubOnDelete (pubBase + pub0) k [sidVal k, .int subId], 1)
-    else (b.setSub { sub with members := members }, [], 0)
+      (b, b.metaEvent MetaEventSubOnUnsubscribe (pubBase + pub0) k [sidVal k, .int subId] ++
+          b.metaEvent MetaEventSubOnDelete (pubBase + pub0 + 1) k [sidVal k, .int subId], 2)
+    else
+      let b := b.setSub { sub with members := members }
+      (b, b.metaEvent MetaEventSubOnUnsubscribe (pubBase + pub0) k [sidVal k, .int subId], 1)
 
 def Broker.removeMembers (b : Broker) (k : SessKey) (pub0 : Nat) :
     List Nat → Broker × List Send × Nat
